@@ -56,6 +56,18 @@ def atom_of(cond):
                 return (lambda m, d, op=FLIP[op], k=k, which=which: CMP[op](m if which == "month" else d, k)), f"{which} {FLIP[op]} {k}"
     if cond[0] == "cmp" and cond[1] in CMP:
         op, a, b = cond[1], cond[2], cond[3]
+        # lexicographic comparison of (month, day) with a constant pair: `(date.month(), date.day()) < (4, 6)`
+        def md_pair(t):
+            return isinstance(t, tuple) and t and t[0] == "tuple" and len(t[1]) == 2 and _is_md(t[1][0], "month") and _is_md(t[1][1], "day")
+
+        def const_pair(t):
+            return isinstance(t, tuple) and t and t[0] == "tuple" and len(t[1]) == 2 and all(isinstance(x, tuple) and x and x[0] == "int" for x in t[1])
+        if md_pair(a) and const_pair(b):
+            M, D = b[1][0][1], b[1][1][1]
+            return (lambda m, d, op=op, M=M, D=D: CMP[op]((m, d), (M, D))), f"(month, day) {op} ({M}, {D})"
+        if md_pair(b) and const_pair(a):
+            M, D = a[1][0][1], a[1][1][1]
+            return (lambda m, d, op=FLIP[op], M=M, D=D: CMP[op]((m, d), (M, D))), f"(month, day) {FLIP[op]} ({M}, {D})"
         ya, yb = _ymd_consts(a), _ymd_consts(b)
         if yb and not ya:
             _, M, D = yb
